@@ -27,6 +27,8 @@ var rawFuncs = map[string]struct {
 	"tdiv": {"tdiv", SInt}, "tmod": {"tmod", SInt}, "in_i64": {"in_i64", SBool},
 	"s_base": {"s_base", SInt}, "s_off": {"s_off", SInt}, "s_len": {"s_len", SInt}, "s_cap": {"s_cap", SInt},
 	"arr2str": {"arr2str", SStr},
+	"rv_valid": {"rv_valid", SBool}, "rv_val": {"rv_val", SVal}, "rv_iface": {"rv_iface", SBool}, "mk_rv": {"mk_rv", "RV"},
+	"rvkind": {"rvkind", SInt}, "tconvertible": {"tconvertible", SBool},
 }
 
 func (c *SpecCtx) args(es []ast.Expr) []TT {
@@ -150,6 +152,49 @@ func (c *SpecCtx) call(e *ast.CallExpr) TT {
 				c.failf("has() on non-map")
 			}
 			return TT{T: c.ex.mapHas(c.st, mt, m.T, k.T), Ty: boolT}
+		case "mapget":
+			// Go semantics of m[k]: the stored value, or the zero value when absent
+			m, k := c.tr(e.Args[0]), c.tr(e.Args[1])
+			mt, ok := types.Unalias(m.Ty).Underlying().(*types.Map)
+			if !ok {
+				c.failf("mapget() on non-map")
+			}
+			return TT{T: ite(c.ex.mapHas(c.st, mt, m.T, k.T), c.ex.mapGet(c.st, mt, m.T, k.T), c.ex.zero(mt.Elem())), Ty: mt.Elem()}
+		case "wtotal":
+			w := c.tr(e.Args[0])
+			h := c.ex.heap(c.st, "W$total", arraySort(SVal, SStr))
+			return TT{T: sel(h, w.T, SStr), Ty: types.Typ[types.String]}
+		case "wappended":
+			// writer w accepted exactly s more; every other writer is unchanged
+			if c.old == nil {
+				c.failf("wappended() needs an old state")
+			}
+			w, sx := c.tr(e.Args[0]), c.tr(e.Args[1])
+			h1 := c.ex.heap(c.st, "W$total", arraySort(SVal, SStr))
+			h0 := c.ex.heap(c.old, "W$total", arraySort(SVal, SStr))
+			return TT{T: eq(h1, sto(h0, w.T, app(SStr, "str_cat", sel(h0, w.T, SStr), sx.T))), Ty: boolT}
+		case "wunchanged":
+			if c.old == nil {
+				c.failf("wunchanged() needs an old state")
+			}
+			h1 := c.ex.heap(c.st, "W$total", arraySort(SVal, SStr))
+			h0 := c.ex.heap(c.old, "W$total", arraySort(SVal, SStr))
+			return TT{T: eq(h1, h0), Ty: boolT}
+		case "mapset":
+			// the map heaps are the old heaps updated at (m, k) with v, and nothing else changed
+			m, k, v := c.tr(e.Args[0]), c.tr(e.Args[1]), c.tr(e.Args[2])
+			mt, ok := types.Unalias(m.Ty).Underlying().(*types.Map)
+			if !ok || c.old == nil {
+				c.failf("mapset() needs a map-typed first argument and an old state")
+			}
+			_, _, has1, val1, ks, vs := c.ex.mapHeaps(c.st, mt)
+			_, _, has0, val0, _, _ := c.ex.mapHeaps(c.old, mt)
+			if v.T.Sort != vs && v.Ty != nil && vs == SVal {
+				v = TT{T: c.w().box(defaultType(v.Ty), v.T, c.ex.d)}
+			}
+			return TT{T: and(
+				eq(has1, sto(has0, m.T, sto(sel(has0, m.T, arraySort(ks, SBool)), k.T, tTrue))),
+				eq(val1, sto(val0, m.T, sto(sel(val0, m.T, arraySort(ks, vs)), k.T, v.T)))), Ty: boolT}
 		case "fresh":
 			x := c.tr(e.Args[0])
 			switch x.T.Sort {
@@ -257,7 +302,7 @@ func (ex *Exec) declDefine(d *Define) {
 		return
 	}
 	ex.d.seen[key] = true
-	c := &SpecCtx{ex: ex, st: &State{ghosts: map[string]Term{}, heaps: map[string]Term{}, hsorts: map[string]string{}}, binds: map[string]TT{}, bound: map[string]string{},
+	c := &SpecCtx{ex: ex, st: &State{ghosts: map[string]Term{}, heaps: map[string]Term{}, hsorts: map[string]string{}, hver: map[string]int{}, pending: map[string][]pendingFrame{}}, binds: map[string]TT{}, bound: map[string]string{},
 		clause: &Clause{File: d.File, Line: d.Line}}
 	var ps []string
 	for i, p := range d.Params {
@@ -381,7 +426,7 @@ func (ex *Exec) pureAxiom(fn *ssa.Function, sel string, con *Contract, name stri
 	if len(con.Ensures) == 0 || sel == ex.sel {
 		return // never assume the contract of the function under verification
 	}
-	dummy := &State{ghosts: map[string]Term{}, heaps: map[string]Term{}, hsorts: map[string]string{}, globals: map[string]Term{}, gsorts: map[string]string{}, alloc: intLit(1), alloc0: intLit(1)}
+	dummy := &State{ghosts: map[string]Term{}, heaps: map[string]Term{}, hsorts: map[string]string{}, hver: map[string]int{}, pending: map[string][]pendingFrame{}, globals: map[string]Term{}, gsorts: map[string]string{}, alloc: intLit(1), alloc0: intLit(1)}
 	c := &SpecCtx{ex: ex, st: dummy, old: dummy, binds: map[string]TT{}, bound: map[string]string{}, pkg: pkgOf(fn)}
 	var qs []string
 	var ps []Term
@@ -476,7 +521,7 @@ func (ex *Exec) applyIfacePure(st *State, ic *IfaceContract, m *IfaceMethod, rec
 }
 
 func (ex *Exec) ifaceAxioms(ic *IfaceContract, m *IfaceMethod, it types.Type, sig *types.Signature, name string, as []string, rs string) {
-	dummy := &State{ghosts: map[string]Term{}, heaps: map[string]Term{}, hsorts: map[string]string{}, globals: map[string]Term{}, gsorts: map[string]string{}, alloc: intLit(1), alloc0: intLit(1)}
+	dummy := &State{ghosts: map[string]Term{}, heaps: map[string]Term{}, hsorts: map[string]string{}, hver: map[string]int{}, pending: map[string][]pendingFrame{}, globals: map[string]Term{}, gsorts: map[string]string{}, alloc: intLit(1), alloc0: intLit(1)}
 	pkg := (*types.Package)(nil)
 	if n, ok := types.Unalias(it).(*types.Named); ok {
 		pkg = n.Obj().Pkg()
@@ -509,7 +554,9 @@ func (ex *Exec) ifaceAxioms(ic *IfaceContract, m *IfaceMethod, it types.Type, si
 		c.clause = &m.Ensures[i]
 		post = append(post, c.Formula(m.Ensures[i].Text))
 	}
-	post = append(post, rangeAssume(sig.Results().At(0).Type(), res))
+	// NOTE: no machine-range fact for the result here: with arithmetic treated as
+	// mathematical a universally quantified range fact can contradict a defining
+	// contract (e.g. Range.Len == e-b+1); ranges are assumed per call site instead.
 	ex.d.axiom("iface:"+name, fmt.Sprintf("(assert (forall (%s) (! %s :pattern (%s))))", strings.Join(qs, " "), implies(and(pre...), and(post...)).S, res.S))
 	ex.d.trust("interface contract " + ic.Sel + "." + m.Name + " (implementations in /repo proved by impl obligations; external implementations assumed to satisfy it)")
 	// links to concrete pure implementations
